@@ -4,7 +4,9 @@ from . import shape_pin
 LINEBUF = [('src/nunavut/jinja/__init__.py', 'CodeGenerator._generate_with_line_buffer'),
            ('src/nunavut/jinja/__init__.py', 'CodeGenerator._filter_and_write_line'),
            ('src/nunavut/jinja/__init__.py', '_rejoin_split_crlf'),
-           ('src/nunavut/jinja/__init__.py', 'SupportGenerator._copy_header_using_line_pps')]
+           ('src/nunavut/jinja/__init__.py', 'SupportGenerator._copy_header_using_line_pps'),
+           ('src/nunavut/jinja/__init__.py', 'CodeGenerator._generate_code'),
+           ('src/nunavut/jinja/__init__.py', '_reset_line_pp')]
 
 
 def pin_linebuf():
